@@ -4,6 +4,9 @@
     elig <k> <batch plates> <unobserved plates>   -> eligible plate ids (comma separated | -) | err:ValueError
     select <k> <screen plates> <batch ids>        -> eligible plate ids computed by select_next_plate's plumbing | err:ValueError
 
+    rounds <k> <screen plates at the start> <finished batches b1/b2/.. (ids comma separated) | -> <batch ids>
+                                                  -> eligible plate ids after the finished batches were marked observed (set_observed)
+
   plates: `;`-separated `id:s1.s2...:o` (unique sample ids of the plate joined by `.`, `_` if none; o = 0/1 observed),
   `-` for the empty list.
 -/
@@ -42,6 +45,12 @@ def handle : List String → Option String
     let scr ← parsePlates? scr
     let ids ← parseNatList? ids
     some (showResult (eligibleOf k scr ids))
+  | ["rounds", k, scr, done, ids] => do
+    let k ← parseNat? k
+    let scr ← parsePlates? scr
+    let done ← if done == "-" then some [] else (done.splitOn "/").mapM parseNatList?
+    let ids ← parseNatList? ids
+    some (showResult (eligibleOf k (afterRounds scr done) ids))
   | _ => none
 
 end Batchie.PolicyIO
